@@ -12,7 +12,7 @@ VALIDATION_CASES = {'quick': 80, 'thorough': 300}
 TIME_BUDGET = {'quick': 900, 'thorough': 3300}
 OPTS = c03.OPTS
 BOUNDS = {
-    'quick': 'the 13 well-formed merge tables of harnesses/c03.py, max_vocab_size None / truncating to the first merge / below '
+    'quick': 'the 19 well-formed merge tables of harnesses/c03.py, max_vocab_size None / truncating to the first merge / below '
              '256; texts of <= 4 symbolic characters over {a, b, c, d, space, tab, ä} (<= 3 with one unconstrained 3-byte '
              'character), special configs default and bos_eos (prefix / suffix); special tokens ignored on both sides',
     'thorough': 'texts of <= 5 symbolic characters',
@@ -27,7 +27,8 @@ def shapes(tier):
     n = 4 if tier == 'quick' else 5
     out = []
     for tb in TABLES:
-        for ln in range(0, n + 1):
+        mx = c03.TABLE_ALPHA[tb][1] if tb in c03.TABLE_ALPHA else n
+        for ln in range(0, mx + 1):
             for mv in (None, 'first', 'tiny'):
                 if mv and (ln < 2 or not TABLES[tb]):
                     continue
